@@ -309,6 +309,14 @@ fn observe(v: &V, prefer_parse: bool) -> Obs {
     }
 }
 
+/// compact event for the date sweep (same content as a "val" event of kind DA)
+fn da_event(v: &V, o: &Obs) -> Value {
+    let ok = o.res == "ok" && o.e["ok"] == true && o.l["ok"] == true && o.e["tz"] == false && o.l["tz"] == false;
+    json!({"ev": "da", "p": v.dprec, "y": v.y, "m": v.m, "d": v.d, "ok": ok, "text": cps_json(&o.text),
+           "bp": o.back.dprec, "by": o.back.y, "bm": o.back.m, "bd": o.back.d, "b1": o.blen1, "b2": o.blen2,
+           "ey": o.e["i"]["y"], "em": o.e["i"]["m"], "ed": o.e["i"]["d"], "ly": o.l["i"]["y"], "lm": o.l["i"]["m"], "ld": o.l["i"]["d"]})
+}
+
 fn obs_event(v: &V, o: &Obs) -> Value {
     let res = if o.res == "ok" { "ok" } else if o.res.starts_with("panic") { "panic" } else { "err" };
     json!({"ev": "val", "class": v.class(), "v": v.to_json(), "res": res, "detail": o.res, "text": cps_json(&o.text), "back": o.back.to_json(),
@@ -603,7 +611,7 @@ fn emit_range(out: &mut Out, vkind: &str, a: Option<&V>, b: Option<&V>) {
 fn record(tier: &str, out_dir: &str) {
     std::fs::create_dir_all(out_dir).expect("mkdir");
     let quick = tier != "thorough";
-    let mut out = Out { dir: out_dir.into(), w: None, files: vec![], in_file: 0, total: 0, batch: if quick { 40_000 } else { 150_000 } };
+    let mut out = Out { dir: out_dir.into(), w: None, files: vec![], in_file: 0, total: 0, batch: if quick { 12_500 } else { 150_000 } };
     let mut rng = Rng::new(seed_from_env() ^ 0xC12);
     let mut not_ok = 0usize;
     let val = |out: &mut Out, v: &V, prefer_parse: bool, not_ok: &mut usize| {
@@ -611,7 +619,12 @@ fn record(tier: &str, out_dir: &str) {
         if o.res != "ok" {
             *not_ok += 1;
         }
-        out.emit(&obs_event(v, &o));
+        // the date sweep uses the compact event form (every 50th date also in the full form)
+        if v.kind == "DA" && out.total % 50 != 0 {
+            out.emit(&da_event(v, &o));
+        } else {
+            out.emit(&obs_event(v, &o));
+        }
     };
 
     // 1. partial dates: every year at year precision; months and days of all years (thorough)
